@@ -1,6 +1,7 @@
 package main
 
 import (
+	"sort"
 	"context"
 	"fmt"
 	"regexp"
@@ -147,6 +148,26 @@ func runC12(c string) string {
 				results = append(results, nil)
 			}
 			out = o.text
+		case "procs":
+			// the cluster manager's accounting once nothing runs: procs booked per machine (C14)
+			var last string
+			stable := 0
+			for i := 0; i < 100 && stable < 5; i++ {
+				time.Sleep(20 * time.Millisecond)
+				var ms []string
+				for _, mu := range exec.VerifMachineProcs(s.sess, results) {
+					ms = append(ms, fmt.Sprintf("%d:%d", mu[0], mu[1]))
+				}
+				sort.Strings(ms)
+				cur := "procs=" + strings.Join(ms, ",")
+				if cur == last {
+					stable++
+				} else {
+					stable = 0
+				}
+				last = cur
+			}
+			out = last
 		default:
 			out = "bad-op"
 		}
@@ -163,4 +184,5 @@ func init() {
 	runners["C20e2e"] = runC12
 	runners["C16res"] = runC12
 	runners["C05e2e"] = runC12
+	runners["C14e2e"] = runC12
 }
